@@ -98,13 +98,17 @@ class M:
 
     def panic_edges(self):
         """facts added on own-frame branch edges whose target can only reach a diverging call"""
-        g = self.I.cfg(self.body)
-        rets = set(g.returns())
         out = []
         for e in self.own:
             if e.kind == 'branch':
+                # judged in the frame the branch sits in (the method, or a helper extracted from it): no return of that frame
+                # is reachable from the edge
+                fb = self.I.bodies.get(e.fn)
+                if fb is None:
+                    continue
+                g = self.I.cfg(fb)
                 t = e.extra['target']
-                if not (g.reach([t]) & rets):
+                if not (g.reach([t]) & set(g.returns())):
                     out.append(e)
         return out
 
@@ -315,7 +319,12 @@ def run(ctx, config='rel-all'):
             check('drain', 'drained slice has end - start elements', ps[0].args[1] in (('app', 'wsub', end, start), app('sub', end, start)))
         # bound arithmetic is checked (std panics on usize::MAX bounds)
         exps = [e for e in m.own if e.kind == 'panic']
-        check('drain', 'Included/Excluded bound + 1 is checked (panics instead of wrapping)', len(exps) >= 2 and all('checked_add' in repr(e.args[0]) for e in exps))
+        okb = len(exps) >= 2 and all('checked_add' in repr(e.args[0]) for e in exps)
+        if not okb:
+            # `match n.checked_add(1) { Some(v) => v, None => panic!(..) }`: a diverging site under the None fact of a checked_add
+            sites = {f[1] for e in m.own if e.kind in ('panic', 'diverge') for f in e.state.facts if f[0] == 'is' and f[2] == 'None' and 'checked_add' in repr(f[1])}
+            okb = len(sites) >= 2
+        check('drain', 'Included/Excluded bound + 1 is checked (panics instead of wrapping)', okb)
         incl_end = any(isinstance(t, tuple) and t and t[0] == 'app' and t[1] == 'add' and t[3] == C(1) and 'Included' in repr(t[2]) for t in subterms(end)) if end else False
         excl_start = any(isinstance(t, tuple) and t and t[0] == 'app' and t[1] == 'add' and t[3] == C(1) and 'Excluded' in repr(t[2]) for t in subterms(start)) if start else False
         check('drain', 'start = Included(n) => n, Excluded(n) => n + 1, Unbounded => 0', excl_start and any(x == C(0) for _, x in (start[2] if start and start[0] == 'phi' else ())))
